@@ -73,6 +73,15 @@ func main() {
 				fmt.Println(l)
 			}
 		}
+	case "params":
+		p, err := loadProgram(LoadOpts{NoSSA: true})
+		if err != nil {
+			fmt.Println("ERR", err)
+			os.Exit(1)
+		}
+		for _, n := range os.Args[2:] {
+			paramsDump(p, n)
+		}
 	case "props":
 		m := map[string]string{}
 		for id, d := range props {
